@@ -55,7 +55,7 @@ mod proofs {
 
     // Symbolic presence flags make CBMC explore the http::Uri parsers on every path (timeout at 900 s); the shapes are
     // therefore ENUMERATED concretely: bounded stand-in over the listed shapes.
-    // @harness id=server_convert_poll_message_shapes props=C13 kind=bounded bound=shapes:{GET_full,GET_no_path,GET_no_path_no_authority,GET_no_authority,GET_no_scheme,GET_with_status,no_method,CONNECT_authority_only,CONNECT_with_path} tier=attempt timeout=900 fn=proto::Peer@Peer::convert_poll_message
+    // @harness id=server_convert_poll_message_shapes props=C13 kind=bounded bound=shapes:{GET_full,GET_no_path,GET_no_path_no_authority,GET_no_authority,GET_no_scheme,GET_with_status,no_method,CONNECT_authority_only,CONNECT_with_path} tier=quick timeout=900 fn=proto::Peer@Peer::convert_poll_message
     #[kani::proof]
     #[kani::unwind(8)]
     fn server_convert_poll_message_shapes() {
